@@ -459,6 +459,57 @@ func c20Gen(tier string, rng *rand.Rand, emit func(string)) map[string]interface
 		out("curry_random", fmt.Sprintf("cu %s %d: %s", []string{"G", "I"}[rng.Intn(2)], rng.Intn(30)-2, concrete(ops)))
 	}
 
+	// ---- caller-owned argument slices: a buffer with spare capacity spread into Calls of two CurryDefs,
+	// overwritten and re-used in between (the accumulator must be the CurryDef's own storage)
+	for _, l := range []string{
+		"cw G 4: b:2:1,2 ; A ; w:0:30 ; w:1:40 ; A ; rA",
+		"cw G 4: b:8:1,2 ; A ; B ; A:7 ; B:8 ; A:0 ; B:9 ; rA ; rB ; v",
+		"cw G -1: b:8:1,2 ; A ; A:7 ; v", "cw G -1: b:8:1,2 ; A ; w:0:5 ; A:7 ; b:8:3 ; A ; B ; v",
+		"cw I 4: b:8:1,2 ; A ; B ; A:7 ; B:8 ; A:0 ; B:9 ; rA ; rB ; v",
+	} {
+		out("curry_caller_slice", l)
+	}
+	cwOps := []string{"A", "B", "w:0:30", "w:1:40", "A:7", "B:8", "b:8:3,4", "A:-"}
+	cwLen := 4
+	if thorough {
+		cwLen = 5
+	}
+	c20Lists(cwOps, 1, cwLen, func(ops []string) {
+		body := strings.Join(ops, " ; ")
+		for _, start := range []string{"b:8:1,2", "b:2:1,2"} {
+			for _, n := range []int{-1, 4} {
+				out("curry_caller_slice", fmt.Sprintf("cw G %d: %s ; %s ; A:0 ; B:9 ; rA ; rB ; v", n, start, body))
+			}
+		}
+	})
+	for i := 0; i < 400; i++ {
+		m := 2 + rng.Intn(14)
+		ops := make([]string, m)
+		for j := range ops {
+			switch r := rng.Intn(100); {
+			case r < 22:
+				ops[j] = "A"
+			case r < 44:
+				ops[j] = "B"
+			case r < 58:
+				ops[j] = fmt.Sprintf("w:%d:%d", rng.Intn(4), 50+rng.Intn(40))
+			case r < 68:
+				ops[j] = fmt.Sprintf("A:%d", 10+rng.Intn(9))
+			case r < 78:
+				ops[j] = fmt.Sprintf("B:%d,%d", 20+rng.Intn(9), 30+rng.Intn(9))
+			case r < 86:
+				ops[j] = fmt.Sprintf("b:%d:%d,%d,%d", rng.Intn(12), rng.Intn(9), rng.Intn(9), rng.Intn(9))
+			case r < 92:
+				ops[j] = "v"
+			case r < 96:
+				ops[j] = "rA"
+			default:
+				ops[j] = "rB"
+			}
+		}
+		out("curry_caller_slice_random", fmt.Sprintf("cw %s %d: b:%d:1,2 ; %s ; v", []string{"G", "G", "I"}[rng.Intn(3)], rng.Intn(24)-2, 2+rng.Intn(8), strings.Join(ops, " ; ")))
+	}
+
 	// ---- concurrent CurryDef.Call stress (monitor)
 	stressG := []int{2, 4, 8}
 	stressM := []int{20, 150}
